@@ -19,7 +19,33 @@ PARTIAL = ("independence of distinct C++ objects is structural in the model (val
 TRUSTED = ["in-bounds behaviour of std::ifstream as modelled by Stream.FileR; a copied FileReader reopens the file at position 0"]
 ASSUMPTIONS = []
 
+def member_stream_cases(tier, rng):
+    """member streams of one long-lived archive object: each exposes exactly its stored block (the VBLK length, which for an
+    LZH member differs from the size in the index) however stream and extraction calls on the same and on other members
+    are interleaved"""
+    from . import volref as V
+    from ..common import hexs
+    for _ in range(24 if tier == "thorough" else 8):
+        k = rng.randrange(2, 5); ms = []
+        for i in range(k):
+            payload = bytes(rng.randrange(256) for _ in range(rng.choice([0, 1, 3, 4, 5, 13, 40])))
+            lzh = rng.random() < 0.4
+            ms.append(V.Member(bytes([97 + i]) + b".bin", payload, size=(len(payload) + rng.choice([1, 7, 27, 1000])) if lzh else None,
+                               comp=V.LZH if lzh else V.UNCOMPRESSED))
+        arc = V.encode(ms, unused=rng.choice([0, 2]), slack=rng.choice([0, 5]))
+        ops = []; exp = ["open:ok"]
+        seq = [rng.choice("re") + str(rng.randrange(k)) for _ in range(14)]
+        # make sure "extract i, then stream / extract i again" occurs
+        j = rng.randrange(k); seq += [f"e{j}", f"r{j}", f"e{j}", f"r{(j + 1) % k}", f"r{j}"]
+        for o in seq:
+            m = ms[int(o[1:])]
+            ops.append(o)
+            if o[0] == "r": exp.append(V.show(m.payload))
+            else: exp.append(V.show(m.payload) if m.comp == V.UNCOMPRESSED else "lzh")
+        yield Case(f"!vol.open {hexs(arc)} L {','.join(ops)}", expect=",".join(exp), tag="archive-member-streams")
+
 def cases(tier, rng):
+    yield from member_stream_cases(tier, rng)
     thorough = tier == "thorough"
     data = bytes(range(10, 18))          # 8 bytes
     n = len(data)
